@@ -39,6 +39,17 @@ TRUSTED = [
     "read before the only write; the three sort keys pinned verbatim: cmp_to_key(prefix_priority) = the exported rank, "
     "get_counters, int(not is_flat()); sorted(key=) = the model's stable insertion sort) - the EdgeRegister class itself "
     "(nested dictionaries keyed by bridged form and worker id) is tied to Reg by the differential runs only",
+    "harness/pygen.py + harness/pygen_pxloc.py regenerate I2N/Extracted/GenLazy.lean on every run from the source of "
+    "TestNode.is_unrolled, should_parse, is_flat, is_shared_root, is_object_root, get_stateful_objects; "
+    "isUnrolled_matches_source, shouldParse_matches_source, one_line_atoms_match_source (Props/C02.lean) prove the model's "
+    "isUnrolled / shouldParse equal to them (is_unrolled: on the shared root and flat nodes, RuntimeError otherwise; "
+    "should_parse: for restriction lists that are empty exactly for unrestricted workers).  Trusted: the translator; the "
+    "atom table of harness/pygen_pxloc.py (worker / worker is None = one optional worker; worker.net.long_suffix in "
+    "self.incompatible_workers = the pair (flat node, worker) is in State.incompatible; self.cleanup_nodes = the children "
+    "in dictionary order; setless_form / node.id / worker.id = Node.setless / Graph.nodeId / Worker.id, the substring tests "
+    "between them translated; shared_involved_workers = involved as a list, iterated for an existence test; the parameter "
+    "defaults worker=None and do='set' are checked textually); the one-line atoms are closed forms, the fields they stand "
+    "for are filled by the export of harness/travlib.py, which calls the real methods",
 ]
 CORPUS = os.path.join(vlib.VERIF, "corpus", PROP)
 
